@@ -1,11 +1,11 @@
 SPECIFICATION Spec
 CONSTANTS
-  N = 4
+  N = 3
   DStart = 1
-  DEnd = 5
+  DEnd = 4
   Secs = {0, 43200}
   Bounds = {86400, 172800}
-  ContinueAfterInfinite = FALSE
+  ContinueAfterInfinite = TRUE
   Unsound = FALSE
-INVARIANTS StreamOk RangeOk FirstOk BoundOk Progress BoundPartition
+INVARIANTS BoundPartition
 CHECK_DEADLOCK FALSE
